@@ -16,7 +16,7 @@ META = {
                    "result pushed under key p with the current file name, guarded only by non-emptiness. R03.return: the accumulator is returned. "
                    "R03.siblings: the three categories have the same shape.",
     "assumptions": ["what fs::read_dir lists is not modelled", "HashMap/Vec API contracts (entry/or_insert/push/append) are trusted"],
-    "floors": {"R03.merge": 6, "R03.recurse": 3, "R03.perfile": 3, "R03.return": 3},
+    "floors": {"R03.merge": 6, "R03.recurse": 3, "R03.perfile": 3, "R03.return": 3, "R03.loops": 3},
 }
 
 READS = ("::len", "::get", "::contains_key", "::iter", "::keys", "::values", "::is_empty", "::clone")
@@ -64,6 +64,20 @@ def run(ctx, crate):
                           expected="per-key merge: entry(k).or_insert(..) then push/append",
                           found="%s(%s)" % (name, ", ".join(show(a) for a in s.args[1:])),
                           example="dir/A.sol and dir/sub/B.sol both with a finding of the same pattern; listing order A.sol, sub"))
+        # mutations of the lists stored in the accumulator: only push / append / extend may touch an entry
+        import order as O2
+        for s in w.sites:
+            if not s.args or s in w.acc_sites:
+                continue
+            recv = s.args[0]
+            if recv == acc or O2.root_object(recv) != acc:
+                continue
+            name = s.path.rsplit("::", 1)[-1]
+            if s.path.endswith(OR_INSERT) or s.path.endswith(APPENDERS) or s.path.endswith(ENTRY) or name in ("len", "iter", "is_empty", "deref", "deref_mut", "clone"):
+                continue
+            obs.append(Ob("R03.merge", w.path, "a list stored in the accumulator is changed by %s" % name, False, site=s.where,
+                          expected="entries only grow: push / append / extend", found=s.path,
+                          example="two files with the same base name in sibling directories"))
         # whole-map assignments to the accumulator local are visible as a phi
         if acc[0] == "phi":
             obs.append(Ob("R03.merge", w.path, "accumulator reassigned", False, found=show(acc)))
@@ -132,6 +146,13 @@ def run(ctx, crate):
                           found="key=%s lines_from_same_pattern=%s name_of_same_file=%s content_of_same_file=%s extra_guards=%s loops_ok=%s" % (
                               show(k), c2, bool(c3), bool(c4), extra, loops_ok)))
             shape.append("perfile")
+        import order as O
+        early = []
+        for lp in O.loops_of_body(b):
+            normal, extra = lp.exits()
+            early += [b.blocks[x]["tloc"]["line"] for (x, t) in extra]
+        obs.append(Ob("R03.loops", w.path, "every directory entry, pattern and nested result is processed (loops run to exhaustion)", not early,
+                      expected="no break / early return inside analyze_dir's loops", found=("early exit at line(s) %s" % sorted(set(early))) if early else "exhaustion only"))
         shapes[w.path] = sorted(shape)
     if len(shapes) == 3:
         vals = list(shapes.values())
